@@ -861,6 +861,10 @@ func catchFailNow(f func()) {
 // condition reports whether the given condition is satisfied.
 func (ts *TestScript) condition(cond string) (bool, error) {
 	switch {
+	case cond == "short" && (flag.Lookup("test.short") == nil || !flag.Parsed()):
+		// Outside a test binary (for example in the testscript command) the
+		// testing flags are not there and testing.Short would panic: not short.
+		return false, nil
 	case cond == "short":
 		return testing.Short(), nil
 	case cond == "net":
